@@ -56,5 +56,5 @@ MANIFEST = dict(
                 "(hypothesis: get_signal_at does not panic on constraints and bad states up to the bound - a computation). "
                 "Tie to /repo: verdict and counterexample length of the real patronus::mc::bmc with real solvers (four capability "
                 "profiles, both modes, raw/simplified) vs the extracted bmc_spec on every run."),
-    level_note='Trusted: Coq kernel; SMT solvers assumed correct (Section hypothesis in the algorithm-layer theorems; two real solvers must agree with the explicit-state reference in the tie); oracle runs only on systems with <= 2^15 valuations per step. Repaired in /repo through this check: the three C04 encoding defects, bmc(k_max = 0) panic. Observation (candidate finding, not recorded): bmc(.., check_constraints=true, ..) panics with assert_eq!("Found unsatisfiable constraints in cycle j") instead of returning the verdict Success that the same call gives with check_constraints=false - reproduced on the real code exactly where the model predicts it. Open findings: cyclic init dependencies (solver rejects the script), cvc5 refuses (as const ..) of a non-value.',
+    level_note='Trusted: Coq kernel; SMT solvers assumed correct (Section hypothesis in the algorithm-layer theorems; two real solvers must agree with the explicit-state reference in the tie); oracle runs only on systems with <= 2^15 valuations per step. Repaired in /repo through this check: the three C04 encoding defects, bmc(k_max = 0) panic. Recorded finding (key panic:check-constraints:unsatisfiable-constraints): bmc(.., check_constraints=true, ..) panics with assert_eq!("Found unsatisfiable constraints in cycle j") instead of returning the verdict Success that the same call gives with check_constraints=false - reproduced on the real code exactly where the model predicts it. Open findings: cyclic init dependencies (solver rejects the script), cvc5 refuses (as const ..) of a non-value.',
 )
